@@ -119,3 +119,38 @@ func intLit(e ast.Expr) (int64, bool) {
 	}
 	return 0, false
 }
+
+// constInt evaluates a constant integer expression built from literals, parentheses and + - * / << >> (array lengths,
+// loop bounds and comparison constants are sometimes written that way).
+func constInt(e ast.Expr) (int64, bool) {
+	switch x := e.(type) {
+	case *ast.BasicLit:
+		return intLit(x)
+	case *ast.ParenExpr:
+		return constInt(x.X)
+	case *ast.BinaryExpr:
+		a, ok1 := constInt(x.X)
+		b, ok2 := constInt(x.Y)
+		if !ok1 || !ok2 {
+			return 0, false
+		}
+		switch x.Op {
+		case token.ADD:
+			return a + b, true
+		case token.SUB:
+			return a - b, true
+		case token.MUL:
+			return a * b, true
+		case token.QUO:
+			if b == 0 {
+				return 0, false
+			}
+			return a / b, true
+		case token.SHL:
+			return a << uint(b), true
+		case token.SHR:
+			return a >> uint(b), true
+		}
+	}
+	return 0, false
+}
